@@ -1,6 +1,10 @@
-(** C18 -- Parser is lossless and its normalisation is stable. *)
+(** C18 -- Parser is lossless and its normalisation is stable.
+    For ALL strings: parsing consumes its input completely and the full texts reproduce it byte for byte; re-parsing the
+    command string of any parsed G/M/T line yields the same code, sub-code, line number, parameters and command string.
+    A numbered line rendered with line number and checksum parses back and validates against its own checksum.
+    Modelled, not proved: Python's `re` engine (the scanner is compared with REGEX_GCODE_LINE exhaustively on every run). *)
 From Coq Require Import NArith String Ascii List Bool.
-From ER Require Import Model.Lexer Proofs.LexerProps.
+From ER Require Import Model.Lexer Proofs.LexerProps Proofs.Reparse.
 Import ListNotations.
 Local Open Scope string_scope.
 
@@ -19,7 +23,26 @@ Proof. exact parse_line_at_end. Qed.
 Theorem C18_lines_lossless : forall s, concat_str (map full_text (parse_lines s)) = s.
 Proof. exact parse_lines_lossless. Qed.
 
+(** stable normalisation: the command string of a parsed line parses to the same code, sub-code, line number and
+    parameters, and normalises to itself *)
+Theorem C18_reparse_stable : forall s k, g_code (fst (parse_line s)) = Some k ->
+  let p := fst (parse_line s) in
+  let p' := fst (parse_line (command_string p)) in
+  (exists k', g_code p' = Some k' /\ gcode_of k' = gcode_of k /\ subcode_of k' = subcode_of k /\ lineno_of k' = lineno_of k) /\
+  g_params p' = g_params p /\ command_string p' = command_string p.
+Proof. exact reparse_stable. Qed.
+(** a numbered line, rendered with line number and checksum, validates *)
+Theorem C18_checksum_roundtrip : forall s k n, g_code (fst (parse_line s)) = Some k -> lineno_of k = Some n ->
+  validate (fst (parse_line (rendered (fst (parse_line s))))) = None.
+Proof. exact checksum_roundtrip. Qed.
+(** str(int) / int(str) round trip used by the normalised code, sub-code and line number *)
+Theorem C18_number_roundtrip : forall n, num_of (show_N n) = n.
+Proof. exact num_of_show. Qed.
+
 Print Assumptions C18_lossless.
+Print Assumptions C18_reparse_stable.
+Print Assumptions C18_checksum_roundtrip.
+Print Assumptions C18_number_roundtrip.
 Print Assumptions C18_progress.
 Print Assumptions C18_at_end.
 Print Assumptions C18_lines_lossless.
